@@ -93,6 +93,9 @@ TABLE: List[Entry] = [
     ("R-INIT-COHERENCE", None, "missing", {"C13", "C15"}),
     ("R-INIT-COHERENCE", None, "triggers-shape", {"C13", "C15"}),  # a table accumulated with |= over uninitialised memory depends on the history of the process
     ("R-INIT-COHERENCE", None, None, {"C13"}),
+    # the shaving loop scans with first_not_instantiated and stops on its 'none left' answer
+    ("R-SENTINEL", "first_not_instantiated", "returns-non-decision-domain", {"C01", "C02", "C04", "C09", "C10", "C16"}),
+    ("R-SENTINEL", "first_not_instantiated", None, {"C04", "C10", "C16"}),
     ("R-SENTINEL", None, "returns-non-decision-domain", {"C01", "C02", "C04", "C09", "C16"}),
     ("R-SENTINEL", None, None, {"C04", "C16"}),
     ("R-OPTIONAL-ZERO", None, None, {"C01", "C02", "C03", "C13"}),
@@ -114,6 +117,7 @@ TABLE: List[Entry] = [
     ("R-TIGHTEN", None, None, {"C03"}),
     # ---- shaving: the loop's own progress is also a termination matter
     ("R-SHAVE", None, "round-without-probe", {"C02", "C04", "C10"}),
+    ("R-SHAVE", None, "cursor-may-move-back", {"C02", "C04", "C10"}),
     ("R-SHAVE", None, "no-advance-after-failed-probe", {"C02", "C04", "C10"}),
     # what the shaving algorithm hands back must be a propagated state with the right status: validity (C01) and fixpoint (C08) under the
     # shaving configuration; the un-probing is a backtrack to the saved alternative, whose moved bound must be announced (C09)
